@@ -267,6 +267,21 @@ def run(ctx):
     # every BAD kind at every position of one fixed representative session (exhaustive)
     base = list(SETUP) + ['EMPTY_BIG_MAP nat nat', 'PUSH (option nat) (Some 9) ; PUSH nat 6 ; UPDATE', 'BEGIN 5 (Pair {} 0)',
                           'UNPAIR ; SWAP ; UNPAIR ; DIG 2 ; SOME ; PUSH nat 1 ; UPDATE ; PAIR ; NIL operation ; PAIR', 'COMMIT', 'RUN %default 5 (Pair {} 0)']
+    # injected failures at every position of every cell of the representative session (the random sessions above may draw short cells)
+    k = 0
+    for idx in range(len(SETUP), len(base)):
+        ninstr, nstack, ok = count_positions(base[:idx], base[idx])
+        if not ok:
+            continue
+        for kind, npos in (('enter', ninstr), ('exit', ninstr), ('stack', nstack)):
+            for pos in range(1, npos + 1):
+                k += 1
+                if not ctx.mine(k):
+                    continue
+                a = list(base)
+                a.insert(idx, base[idx])
+                judge(ctx, a, {idx}, (idx, kind, pos), 'injected:' + kind)
+                ctx.count('injection_positions')
     # second representative session: a literal big map whose every key is removed again (pending diff = removals only),
     # inspected with BIG_MAP_DIFF and committed
     base2 = list(SETUP) + ['BEGIN 7 (Pair { Elt 1 1 } 3)', 'CDR ; UNPAIR ; NONE nat ; PUSH nat 1 ; UPDATE', 'BIG_MAP_DIFF',
